@@ -1,6 +1,6 @@
 (* Model/Icmp6SpoofKnown.v — what "learned exactly" means for one router record, and the
    decidable classes of advertisements on which the library's data structure cannot be exact
-   (recorded findings; used by the theorems and by the dispatch). *)
+   (used by the theorems and by the dispatch). *)
 From PV Require Export Base.Prelude Model.Icmp6SpoofRA Spec.RFC4861.
 Open Scope N_scope.
 
@@ -13,13 +13,6 @@ Definition rd_of (o : ndopt) : rdnss :=
   match o with ORdnss life srv => mkRD life srv | _ => mkRD 0 [] end.
 Definition ds_of (o : ndopt) : dnssl :=
   match o with ODnssl life names => mkDS life names | _ => mkDS 0 [] end.
-
-(* the single-valued fields of NewOptions read as lists *)
-Definition model_routes (o : new_options) : list route_info := if ri_set (o_ri o) then [o_ri o] else [].
-Definition model_rdnss (o : new_options) : list rdnss :=
-  match rd_servers (o_rdnss o) with [] => [] | _ => [o_rdnss o] end.
-Definition model_dnssl (o : new_options) : list dnssl :=
-  match ds_names (o_dnssl o) with [] => [] | _ => [o_dnssl o] end.
 
 (* header fields of the advertisement *)
 Definition hdr_exact (r : router) (d : ra_info) : Prop :=
@@ -34,15 +27,20 @@ Definition opts_exact (r : router) (d : ra_info) : Prop :=
   r_prefixes r = map pi_of (prefixes (ra_opts d)) /\
   o_prefixes (r_opts r) = map pi_of (prefixes (ra_opts d)).
 
-(* options that may occur several times, each with its own lifetime *)
+(* options that may occur several times, each with its own lifetime: every one, in packet order *)
 Definition routes_exact (r : router) (d : ra_info) : Prop :=
-  model_routes (r_opts r) = map ri_of (routes (ra_opts d)).
+  o_routes (r_opts r) = map ri_of (routes (ra_opts d)).
 Definition rdnss_exact (r : router) (d : ra_info) : Prop :=
-  model_rdnss (r_opts r) = map rd_of (rdnsses (ra_opts d)).
+  o_rdnss_all (r_opts r) = map rd_of (rdnsses (ra_opts d)).
 Definition dnssl_exact (r : router) (d : ra_info) : Prop :=
-  model_dnssl (r_opts r) = map ds_of (dnssls (ra_opts d)).
+  o_dnssl_all (r_opts r) = map ds_of (dnssls (ra_opts d)).
 
-(* recorded classes: two or more options of a kind the library keeps in a single struct *)
-Definition known_ri_multiple (d : ra_info) : bool := (2 <=? List.length (routes (ra_opts d)))%nat.
-Definition known_rdnss_multiple (d : ra_info) : bool := (2 <=? List.length (rdnsses (ra_opts d)))%nat.
-Definition known_dnssl_multiple (d : ra_info) : bool := (2 <=? List.length (dnssls (ra_opts d)))%nat.
+(* the older single fields keep their documented meaning: last route, last DNSSL list, and the
+   lifetime of the last RDNSS option over the servers of all of them *)
+Definition rd_life_of (o : ndopt) : N := match o with ORdnss l _ => l | _ => 0 end.
+Definition rd_srv_of (o : ndopt) : list bytes := match o with ORdnss _ s => s | _ => [] end.
+Definition legacy_exact (r : router) (d : ra_info) : Prop :=
+  o_ri (r_opts r) = last (map ri_of (routes (ra_opts d))) ri_zero /\
+  o_dnssl (r_opts r) = last (map ds_of (dnssls (ra_opts d))) (mkDS 0 []) /\
+  o_rdnss (r_opts r) = mkRD (last (map rd_life_of (rdnsses (ra_opts d))) 0)
+                            (concat (map rd_srv_of (rdnsses (ra_opts d)))).
